@@ -25,7 +25,8 @@ NumCore  == {CmpE(op, A, LN(1)) : op \in CmpOps} \cup
             {Between(neg, A, LN(1), LN(2)) : neg \in BOOLEAN}
 
 \* ---- string family: column s; 40 = '(' 37 = '%' 95 = '_' 97 = 'a' 66 = 'B' 98 = 'b'
-StrVals  == {<<>>, <<97>>, <<66>>, <<40>>, <<97, 66>>, <<66, 97>>, <<40, 97>>, <<97, 97>>}
+\* 10 = line feed: % and _ stand for any characters, a line break included ('a<LF>' LIKE 'a%', 'a_')
+StrVals  == {<<>>, <<97>>, <<66>>, <<40>>, <<97, 66>>, <<66, 97>>, <<40, 97>>, <<97, 97>>, <<97, 10>>}
 StrRows  == {Row([s |-> StrV(c)]) : c \in StrVals}
 Pats     == SeqsUpTo({97, 98, 37, 95, 40}, 2)
 StrConst == {LS(c) : c \in {<<>>, <<97>>, <<66>>, <<97, 66>>}}
